@@ -417,7 +417,8 @@ def run_runner(binp, cases, out, indented=False, per_case_timeout=20, total_time
             gid, hx = line.rstrip("\n").split("\t")
             r = results.get(i)
             if r is None:
-                r = {"g": gid, "inp": [ord(c) for c in bytes.fromhex(hx).decode("utf-8")],
+                # (a described input of gigabytes, "@...", is not spelled out: [-4], as the runner itself reports it)
+                r = {"g": gid, "inp": [-4] if hx.startswith("@") else [ord(c) for c in bytes.fromhex(hx).decode("utf-8")],
                      "crash": crashes.get(i, "no output")}
             outl.append(r)
     return outl
